@@ -126,7 +126,7 @@ Definition can_emit (c : config) (s : sim) (o : opcode) : bool :=
   | BUILD => Nat.leb 2 n && is_instance_at s 1 && (is_tuple_at s 0 || is_dict_at s 0)
   | INST => has_mark s && count_pos s
   | OBJ => has_mark s && is_callable_above_mark s
-  | GET | BINGET | LONG_BINGET => negb (match memo s with [] => true | _ => false end)
+  | GET | BINGET | LONG_BINGET => negb (N.eqb (memo_len s) 0)
   | STACK_GLOBAL =>
       if c_unsafe c then Nat.leb 2 n
       else Nat.leb 2 n && is_string_at s 0 && is_string_at s 1
